@@ -370,11 +370,12 @@ def run_real(argv, pre_seed, files=None):
 
 class RunCase(Case):
     """the request depends on what the real run drew: it is built when first needed"""
-    __slots__ = ("_argv", "_req", "_ans", "_state", "_files")
+    __slots__ = ("_argv", "_req", "_ans", "_state", "_files", "_light")
 
-    def __init__(self, argv, cls, files=None):
+    def __init__(self, argv, cls, files=None, light=False):
         self._argv = list(argv)
         self._files = files
+        self._light = light          # quick tier: the second real run (other generator state) only when the trace is suspicious
         self._req = None
         self._ans = None
         self._state = {}
@@ -427,7 +428,7 @@ class RunCase(Case):
         first_seed = next((i for i, e in enumerate(st["events"]) if e[0] == "seed"), None)
         suspicious = any(s != seed for s in st["seeds"]) or \
             (st["out"][0] == "text" and any(e[0] == "draw" for e in st["events"][:first_seed]))
-        for pre in ((977, 31, 5, 123456, 8) if suspicious else (977,)):
+        for pre in ((977, 31, 5, 123456, 8) if suspicious else (() if self._light else (977,))):
             out2, rec2 = run_real(self._argv, pre, self._files)
             if out2 == st["out"] and rec2.written != st["written"]:
                 return {"argv": self._argv, "saved_graph_files_differ_between_generator_states":
@@ -736,7 +737,7 @@ def chain_cmds(rng, tier):
     out = []
     for i, ch in enumerate(chains):
         for j, b in enumerate(bases):
-            if tier == "thorough" or (i + j) % 3 == 0:
+            if tier == "thorough" or (i + j) % 4 == 0:
                 out.append(b + ch)
     out.append(["randkcnf", "2", "0", "0", "-T", "xorcomp", "3", "2"])      # no variables: obtain_glrd refuses L = 0
     return out
@@ -786,18 +787,18 @@ def clirun_cases(ctx):
     for i, (c, files) in enumerate(file_cmds(rng, tier)):
         p = prefixes[1 + i % (len(prefixes) - 1)]
         out.append(RunCase(["cnfgen"] + p + c, cls="files:seed", files=files))
-        if i % 4 == 0:
+        if i % 8 == 0 or tier == "thorough":
             out.append(RunCase(["cnfgen"] + c, cls="files:noseed", files=files))
-        if i % 5 == 1:
+        if i % 8 == 1 or tier == "thorough":
             out.append(RunCase(["pbgen"] + p + c, cls="pbgen:files:seed", files=files))
     # the extended fragment: every command with a seed; every third one also without
     for i, c in enumerate(family_cmds(rng, tier) + chain_cmds(rng, tier)):
         p = prefixes[1 + i % (len(prefixes) - 1)]
         tag = c[0] + ("+T" if "-T" in c else "")
-        out.append(RunCase(["cnfgen"] + p + c, cls=tag + ":seed"))
-        if i % 3 == 0:
+        out.append(RunCase(["cnfgen"] + p + c, cls=tag + ":seed", light=(tier == "quick" and i % 2 == 1)))
+        if i % 8 == 0 or tier == "thorough":
             out.append(RunCase(["cnfgen"] + c, cls=tag + ":noseed"))
-        if (tier == "thorough" or i % 5 == 0) and "-T" not in c:
+        if (tier == "thorough" or i % 8 == 0) and "-T" not in c:
             out.append(RunCase(["pbgen"] + p + c, cls="pbgen:" + tag + ":seed"))
     out.append(RunCase(["pbgen", "--seed", "3", "kcolor", "2", "gnm", "3", "2", "-T", "shuffle"], cls="pbgen:+T"))
     cmds = formula_cmds(rng, tier) + graph_cmds(rng, tier)
